@@ -179,7 +179,7 @@ def search_harder(rng, bad_cases):
 
 MANIFEST = dict(
     design_ref='6/C13',
-    text="Coq theorems over all scripts, recycle rates, timeouts and abandonment points about the same hand-written model of the equalizer's dispatch / wait / timeout / recycle logic and worker loop as C08: the wait for one result performs at most timeout+1 one-second polls and never runs out of fuel (for every script, late answers included); for scripts of hangs, exits, dropped and slow answers the run always completes, its modelled duration is the sum of the per-recording costs, after a fault no worker is alive and the next recording is served by a worker that has served nothing else, no worker takes more than max(1, rate) tasks, and after completion or abandonment after any number of yields every worker is dead or idle-and-told-to-terminate and dead after one more step; the late-answer case (parent blocks forever in join, hung worker leaked) is refuted with a witness (known finding F08). Tie: the REAL Equalizer over fake multiprocessing/clock/kill; the full trace (polls per task, tasks per worker, worker states, births/deaths/kills, queue leftovers, flag, clock) is compared with the model by vm_compute; direct predicate on the simulator's observables and, in the thorough tier, on real processes (no active children within ~1 s after completion/abandonment, tasks per worker pid <= rate, wall time per comparison bounded).",
+    text="Coq theorems over all scripts, recycle rates, timeouts and abandonment points about the same hand-written model of the equalizer's dispatch / wait / timeout / recycle logic and worker loop as C08: the wait for one result performs at most timeout+1 one-second polls and never runs out of fuel (for every script, late answers included); for scripts of hangs, exits and slow answers the run always completes, its modelled duration is the sum of the per-recording costs, after a fault no worker is alive and the next recording is served by a worker that has served nothing else, no worker takes more than max(1, rate) tasks, and after completion or abandonment after any number of yields every worker is dead or idle-and-told-to-terminate and dead after one more step; the late-answer case (parent blocks forever in join, hung worker leaked) is refuted with a witness (known finding F08). Tie: the REAL Equalizer over fake multiprocessing/clock/kill; the full trace (polls per task, tasks per worker, worker states, births/deaths/kills, queue leftovers, flag, clock) is compared with the model by vm_compute; direct predicate on the simulator's observables and, in the thorough tier, on real processes (no active children within ~1 s after completion/abandonment, tasks per worker pid <= rate, wall time per comparison bounded).",
     note='Trusted: Coq kernel + vm_compute; hand-written model; the scheduling implemented by the fake multiprocessing layer; os.kill(SIGKILL) succeeds; real wall time, zombies and signal delivery are not claimed by theorem (real-process scripts sample them, an anomaly must reproduce three times).',
     technique='Coq proof (invariant over the parent loop, measure on the wait loop) + model/implementation correspondence by vm_compute over a deterministic multiprocessing simulator + real-process sampling',
 )
